@@ -12,7 +12,7 @@ Rec == ndJsonDeserialize(IOEnv.TRACE)
 VARIABLES l, st, pend   \* pend[sid]: events subscriber sid must have received since the last drain
 vars == <<l, st, pend>>
 
-StartWith(caps) == [docs |-> [d \in 1..Len(caps) |-> [cap |-> caps[d], recs |-> {}]], open |-> <<>>, authors |-> {1, 2}]
+StartWith(caps) == [docs |-> [d \in 1..Len(caps) |-> [cap |-> caps[d], recs |-> {}, peers |-> <<>>]], open |-> <<>>, authors |-> {1, 2}]
 Start == StartWith(<<"write", "write">>)
 
 ValOk(q, R) ==
@@ -51,7 +51,13 @@ Silent(s, q) ==
 
 ReqStep(q) ==
   LET R == ActorStep(st, q) IN
+  \* C17 through the actor: a registration succeeds exactly for a document that exists, and the list read back is the
+  \* five most recently registered distinct peers, most recent first
+  /\ (Prop = "C17" /\ q.op \in {"RegisterPeer", "GetPeers"}) =>
+        /\ (q.res = "ok") = (R.res = "ok")
+        /\ (q.op = "GetPeers" /\ q.res = "ok") => q.val = R.val
   /\ Prop = "C14" => \/ Silent(st, q)
+                     \/ q.op \in {"RegisterPeer", "GetPeers"}          \* (not C14's subject)
                      \/ /\ (q.res = "ok") = (R.res = "ok")
                         /\ q.res = "ok" => ValOk(q, R)
   \* C07: a write attempt that passes the open / author gates is refused exactly when the capability is not write
